@@ -83,3 +83,20 @@ Theorem C09_faulty_ok_whole : forall st k m k' st', send_to st k m = (ROk k', st
     (k_buf (p_sink p) = [] -> wire_of k st' = wire_of k st ++ encode_frames m).
 Proof. exact send_to_ok_whole. Qed.
 Print Assumptions C09_faulty_ok_whole.
+
+(** over connections that accept every write, [send_to] does what the socket model's ROUTER send does *)
+From ZV Require Import Proofs.SendRefinement.
+Theorem C09_faulty_refines_world : forall w st k m,
+  World.w_type w = ROUTER -> rr_agrees w st -> lenN (encode_frames m) < 2 ^ 63 ->
+  let '(bs, w') := World.step w (World.OSendTo k m) in
+  let '(r, st') := send_to st k m in
+  rr_agrees w' st' /\
+  match r with
+  | ROk k' => k' = k /\ bs = [World.BSendOk] /\
+              wire_w k w' = wire_w k w ++ encode_frames m /\ wire_of k st' = wire_of k st ++ encode_frames m /\
+              (forall j, j <> k -> wire_w j w' = wire_w j w /\ wire_of j st' = wire_of j st)
+  | RNoPeer => bs = [World.BSendErr EOther None] /\ w' = w /\ st' = st
+  | _ => False
+  end.
+Proof. exact send_to_refines_world. Qed.
+Print Assumptions C09_faulty_refines_world.
